@@ -335,8 +335,61 @@ def run(prog, ctx):
                 for i in range(min(len(r) for r in per)):
                     with_tag = [r[i] for r in per if r[i][0]]
                     # only where the value had been read on that path as well (the read dominates the construction)
-                    consts = [r[i] for r, (bb_, _s) in zip(per, sites_) if not r[i][0] and r[i][1][0] in ("const", "static")
+                    consts = [(r[i], bb_) for r, (bb_, _s) in zip(per, sites_) if not r[i][0] and r[i][1][0] in ("const", "static")
                               and with_tag and all(g.dominates(tags[tg][0], bb_) for tg in with_tag[0][0])]
+                    # a construction that sits on a branch taken *because of* the value read (`if n == 0 && theta == MAX { build(MAX) }`) may
+                    # pass the constant the branch has just established: that is not a dropped value
+                    def strip_(x):
+                        while isinstance(x, tuple) and x and x[0] == "cast":
+                            x = x[1]
+                        return x
+
+                    def truthy(tv_):
+                        return (tv_[0] == "ne" and 0 in tv_[1]) or (tv_[0] == "eq" and tv_[1] not in (0, False))
+                    def implied_eqs(c_, want_true):
+                        """equalities (expr, const) that hold when condition c_ has the given truth value"""
+                        c_ = strip_(c_)
+                        if not isinstance(c_, tuple) or not c_:
+                            return []
+                        if want_true and c_[0] == "bin" and c_[1] == "Eq":
+                            a_, b_ = strip_(c_[2]), strip_(c_[3])
+                            out_ = []
+                            if b_[0] == "const":
+                                out_.append((a_, b_[1]))
+                            if a_[0] == "const":
+                                out_.append((b_, a_[1]))
+                            return out_
+                        if want_true and c_[0] == "select" and strip_(c_[3])[0] == "const" and strip_(c_[3])[1] in (0, False):
+                            return implied_eqs(c_[1], True) + implied_eqs(c_[2], True)       # a && b
+                        if want_true and c_[0] == "bin" and c_[1] == "BitAnd":
+                            return implied_eqs(c_[2], True) + implied_eqs(c_[3], True)
+                        return []
+                    pinned = []
+                    e_tag = with_tag[0][1] if with_tag else None
+                    if e_tag is not None and not (strip_(e_tag)[0] == "call" and show(strip_(e_tag)) in with_tag[0][0]):
+                        continue        # a value computed from what was read (not the field itself): a constant elsewhere is no evidence
+                    for (rc, bb_) in consts:
+                        cval = rc[1][1] if rc[1][0] == "const" else None
+                        paths_ = sg.path_conditions(bb_) or []
+                        all_paths = bool(paths_)
+                        for pth in paths_:
+                            hit = False
+                            for c_, tv_ in pth:
+                                # the expression handed over elsewhere is itself the branch condition, with the constant's truth value
+                                if strip_(c_) == strip_(e_tag) and cval in (0, 1, True, False) and truthy(tv_) == bool(cval):
+                                    hit = True
+                                # the value read is compared for equality with the very constant that is handed over
+                                if truthy(tv_) and any(x_ == strip_(e_tag) and k_ == cval for x_, k_ in implied_eqs(c_, True)):
+                                    hit = True
+                            if not hit:
+                                all_paths = False
+                        pinned.append(all_paths)
+                    if consts and all(pinned):
+                        n_u += 1
+                        res.obligations += 1
+                        res.undecided += 1
+                        continue
+                    consts = [rc for (rc, bb_) in consts]
                     if with_tag and consts:
                         n_u += 1
                         res.tri(False, "C11.U", "C11.U|%s|%s|arg%d" % (g.id, cal.rsplit("::", 1)[-1], i), "%s builds the object with %s(.., %s, ..) on one path and with the constant %s in the same "
